@@ -18,6 +18,10 @@ RULE = ("Merkle/BIP37: exhaustively every tree size 1..8 (quick) / 1..10 (thorou
         "dropped / duplicated / foreign extra hash, of sampled proofs.  PoW: every exponent 0..35 and 255 x boundary "
         "coefficients, targets 2^k, 2^k+-1, time differentials around TWO_WEEKS/4 and TWO_WEEKS*4 (+-1), random "
         "80-byte headers, header chains with broken links / failing PoW.")
+RULE += ("  Reuse: ONE MerkleBlock / Block / HeadersMessage object queried repeatedly with in-place edits of every public "
+         "field in between (hashes, flags, total, root; the six header fields; the header list), two MerkleTree / "
+         "MerkleBlock objects filled alternately, merkle_root on one list object edited between calls, compact-bits and "
+         "tree-size functions called in sequences; each answer compared with a fresh object and the references.")
 TRUSTED = ["hashlib (sha256) — hash256 is a universally quantified function in the theorems",
            "modelled, not verified: object plumbing of MerkleBlock/Block/HeadersMessage; Block.difficulty "
            "(a float quotient) is only compared with an exact rational to 1e-12 relative",
